@@ -214,8 +214,10 @@ func main() {
 					if _, err := fmt.Sscanf(kv, "key=%d", &v); err == nil {
 						o.key = int(v)
 					}
-					if _, err := fmt.Sscanf(kv, "at=%d", &v); err == nil {
-						o.at = v
+					if strings.HasPrefix(kv, "at=") {
+						if t, ok := fromBigNs(baseTime, kv[3:]); ok {
+							o.abs = &t
+						}
 					}
 				}
 				ops = append(ops, o)
@@ -259,6 +261,9 @@ func main() {
 		r.eval(c)
 	}
 	r.eval(Case{Kind: "close2"})
+	for _, c := range timeDomainCases() {
+		r.eval(c)
+	}
 	res.Exhaustive = true // over the (point, op) product
 	// 2. random multi-goroutine histories
 	n := 400
@@ -270,7 +275,7 @@ func main() {
 	}
 	rnd := lib.NewRand(fl.Seed)
 	for i := 0; i < n; i++ {
-		c := Case{Kind: "random", Seed: rnd.U64(), Workers: rnd.Range(1, 4), Ops: rnd.Range(2, 14), Close: rnd.Intn(4) == 0, Reenter: rnd.Intn(3) == 0}
+		c := Case{Kind: "random", Seed: rnd.U64(), Workers: rnd.Range(1, 4), Ops: rnd.Range(2, 14), Close: rnd.Intn(4) == 0, Reenter: rnd.Intn(3) == 0, Extreme: rnd.Intn(4) == 0}
 		r.eval(c)
 	}
 	// 3. queue.go against the heap layer of the model
